@@ -431,9 +431,13 @@ func (e *c13Env) drive(c *c13Cfg) {
 	case "CircuitBreaker":
 		e.drivePolicy(c, e.renderCircuitBreaker(c))
 	case "Pipeline":
-		e.drivePipelineYAML(c, e.renderPipeline(c), false)
+		pl := e.renderPipeline(c)
+		e.applyPad(c, pl)
+		e.drivePipelineYAML(c, c13YAML(pl), false)
 	case "GlobalFilter":
-		e.driveGlobalFilter(c, e.renderGlobalFilter(c))
+		gf := e.renderGlobalFilter(c)
+		e.applyPad(c, gf)
+		e.driveGlobalFilter(c, c13YAML(gf))
 	case "HTTPServer":
 		e.driveHTTPServer(c)
 	case "MQTTProxy":
@@ -455,6 +459,7 @@ func c13YAML(v interface{}) string {
 func (e *c13Env) validate(y string) *supervisor.Spec {
 	var spec *supervisor.Spec
 	rec := vx.M{}
+	e.padInfo(rec)
 	e.call("validate", rec, func() {
 		s, err := e.super.NewSpec(y)
 		if err != nil {
@@ -477,6 +482,7 @@ func (e *c13Env) driveFilter(c *c13Cfg, raw c13M, res c13L, validateOnly bool) {
 	if res != nil {
 		pl["resilience"] = res
 	}
+	e.applyPad(c, pl)
 	e.drivePipelineYAML(c, c13YAML(pl), validateOnly)
 }
 
@@ -523,7 +529,9 @@ type c13CancelKey struct{}
 
 func (e *c13Env) drivePolicy(c *c13Cfg, raw c13M) {
 	var pol resilience.Policy
+	e.applyPad(c, raw)
 	rec := vx.M{}
+	e.padInfo(rec)
 	e.call("validate", rec, func() {
 		p, err := resilience.NewPolicy(raw)
 		if err != nil {
@@ -630,7 +638,7 @@ func (e *c13Env) drivePolicy(c *c13Cfg, raw c13M) {
 }
 
 // ---------------------------------------------------------------------------------------- Pipeline (object grammar)
-func (e *c13Env) renderPipeline(c *c13Cfg) string {
+func (e *c13Env) renderPipeline(c *c13Cfg) c13M {
 	const K = "Pipeline"
 	pl := c13M{"name": "c13-pl", "kind": K}
 	mock := func(name string) c13M {
@@ -779,11 +787,11 @@ func (e *c13Env) renderPipeline(c *c13Cfg) string {
 	default:
 		c13Bad(K, "resilience", v)
 	}
-	return c13YAML(pl)
+	return pl
 }
 
 // ---------------------------------------------------------------------------------------- GlobalFilter
-func (e *c13Env) renderGlobalFilter(c *c13Cfg) string {
+func (e *c13Env) renderGlobalFilter(c *c13Cfg) c13M {
 	const K = "GlobalFilter"
 	gf := c13M{"name": "c13-gf", "kind": K}
 	side := func(class string) interface{} {
@@ -815,7 +823,7 @@ func (e *c13Env) renderGlobalFilter(c *c13Cfg) string {
 	if v := c.f("after"); v != "-" {
 		gf["afterPipeline"] = side(v)
 	}
-	return c13YAML(gf)
+	return gf
 }
 
 // c13MainPipeline is the pipeline behind HTTPServer rules and GlobalFilter.Handle: a Mock answering 200.
@@ -879,7 +887,7 @@ func (m *c13Mapper) GetHandler(name string) (context.Handler, bool) {
 	return nil, false
 }
 
-func (e *c13Env) renderHTTPServer(c *c13Cfg) (string, int) {
+func (e *c13Env) renderHTTPServer(c *c13Cfg) (c13M, int) {
 	const K = "HTTPServer"
 	hs := c13M{"name": "c13-hs", "kind": K}
 	port := 0
@@ -1094,7 +1102,7 @@ func (e *c13Env) renderHTTPServer(c *c13Cfg) (string, int) {
 	default:
 		c13Bad(K, "globalFilter", v)
 	}
-	return c13YAML(hs), port
+	return hs, port
 }
 
 var c13HSReqs = append([]string{"plain", "body", "hdr", "big", "acme", "host", "abort"}, c13PathReqs...)
@@ -1150,7 +1158,9 @@ func (t *c13StderrTap) close() {
 }
 
 func (e *c13Env) driveHTTPServer(c *c13Cfg) {
-	y, port := e.renderHTTPServer(c)
+	raw, port := e.renderHTTPServer(c)
+	e.applyPad(c, raw)
+	y := c13YAML(raw)
 	spec := e.validate(y)
 	if spec == nil {
 		return
@@ -1297,7 +1307,7 @@ func (e *c13Env) driveHTTPServer(c *c13Cfg) {
 }
 
 // ---------------------------------------------------------------------------------------- MQTTProxy
-func (e *c13Env) renderMQTTProxy(c *c13Cfg) (string, int) {
+func (e *c13Env) renderMQTTProxy(c *c13Cfg) (c13M, int) {
 	const K = "MQTTProxy"
 	mp := c13M{"name": "c13-mqtt", "kind": K}
 	port := 0
@@ -1380,7 +1390,7 @@ func (e *c13Env) renderMQTTProxy(c *c13Cfg) (string, int) {
 	default:
 		c13Bad(K, "rules", v)
 	}
-	return c13YAML(mp), port
+	return mp, port
 }
 
 var c13MQTTReqs = []string{"connect", "pubsub"}
@@ -1400,7 +1410,9 @@ func (c13NopMapper) GetHandler(name string) (context.Handler, bool) {
 }
 
 func (e *c13Env) driveMQTTProxy(c *c13Cfg) {
-	y, port := e.renderMQTTProxy(c)
+	raw, port := e.renderMQTTProxy(c)
+	e.applyPad(c, raw)
+	y := c13YAML(raw)
 	spec := e.validate(y)
 	if spec == nil {
 		return
